@@ -270,7 +270,7 @@ fn run_skeleton(base: &Path, lines: &HashMap<u32, String>) -> (String, Value) {
     coq.push_str("].\n");
     coq.push_str(
         "Fixpoint store_eqb (a b : list (N * (N * N))) : bool :=\n  match a, b with\n  | [], [] => true\n  | (k, (v, m)) :: r, (k', (v', m')) :: s => N.eqb k k' && N.eqb v v' && N.eqb m m' && store_eqb r s\n  | _, _ => false\n  end.\n\
-Definition run1 (x : N * (N * N * N) * list scall * scall * list N * list (N * (N * N))) : option (list N * store) :=\n  let '(_, (iv, mw, cap), setup, call, _, _) := x in\n  let c := mkCfg iv mw cap (fun _ => 1) in\n  match solo_all c init setup with\n  | Some st => match solo c st call with Some (st', ls) => Some (map lev_code ls, st_store st') | None => None end\n  | None => None\n  end.\n\
+Definition run1 (x : N * (N * N * N) * list scall * scall * list N * list (N * (N * N))) : option (list N * store) :=\n  let '(_, (iv, mw, cap), setup, call, _, _) := x in\n  let c := mkCfg iv mw cap (fun _ => 1) (fun n => n) in\n  match solo_all c init setup with\n  | Some st => match solo c st call with Some (st', ls) => Some (map lev_code ls, st_store st') | None => None end\n  | None => None\n  end.\n\
 Definition ok1 (x : N * (N * N * N) * list scall * scall * list N * list (N * (N * N))) : bool :=\n  let '(_, _, _, _, obs, cen) := x in\n  match run1 x with Some (ls, sto) => list_N_eqb ls obs && store_eqb sto cen | None => false end.\n\
 Definition id_of (x : N * (N * N * N) * list scall * scall * list N * list (N * (N * N))) : N := let '(k, _, _, _, _, _) := x in k.\n\
 Definition bad := map id_of (filter (fun x => negb (ok1 x)) cases).\n\
@@ -582,13 +582,18 @@ fn probe_fileid(base: &Path, lines: &HashMap<u32, String>, n: usize) -> Value {
         // warm-up snapshot + two racing ones: 3 files when the older one won the lock race first, 2 when it was stale;
         // fewer than 2 means a name was shared
         if snaps.len() < 2 { same_name += 1; }
+        let stop = !equal;
         if !equal {
             bad.push(json!({"trial": i, "snapshots": snaps, "manifest": man, "live": census_tags(&live),
                             "recovered": match &rec { Ok(r) => json!(census_tags(r)), Err(e) => json!({"error": e}) }}));
         }
         let _ = std::fs::remove_dir_all(&dir);
+        if stop {
+            return json!({"trials": i + 1, "oracle_failures": bad});
+        }
     }
-    json!({"trials": n, "fewer_snapshot_files_than_expected": same_name, "oracle_failures": bad})
+    let _ = same_name;
+    json!({"trials": n, "oracle_failures": bad})
 }
 
 // ---------------------------------------------------------------------------------------------
